@@ -105,6 +105,13 @@ impl Graph {
 
 /// Program text for a graph in a realisation. `order` lists the node indices in declaration order.
 pub fn realise(g: &Graph, real: Real, order: &[usize]) -> String {
+    realise_spelled(g, real, order, false)
+}
+
+/// `refs_other_case`: every reference to a declaration is spelled in lower case although the declaration
+/// is spelled with an upper-case letter (identifiers are case-insensitive).
+pub fn realise_spelled(g: &Graph, real: Real, order: &[usize], refs_other_case: bool) -> String {
+    let (rf, rt) = if refs_other_case { ("f", "t") } else { ("F", "T") };
     let mut s = String::new();
     match real {
         Real::Fb => {
@@ -114,7 +121,7 @@ pub fn realise(g: &Graph, real: Real, order: &[usize]) -> String {
                     s.push_str("VAR\n");
                     for j in 0..g.n {
                         if g.adj[i] >> j & 1 == 1 {
-                            s.push_str(&format!("  v{}_{} : F{};\n", i, j, j));
+                            s.push_str(&format!("  v{}_{} : {}{};\n", i, j, rf, j));
                         }
                     }
                     s.push_str("END_VAR\n");
@@ -130,12 +137,12 @@ pub fn realise(g: &Graph, real: Real, order: &[usize]) -> String {
                     s.push_str(&format!("  T{} : (A{}, B{});\n", i, i, i));
                 } else if d == 1 && real == Real::AliasMix {
                     let j = g.adj[i].trailing_zeros();
-                    s.push_str(&format!("  T{} : T{};\n", i, j));
+                    s.push_str(&format!("  T{} : {}{};\n", i, rt, j));
                 } else {
                     s.push_str(&format!("  T{} : STRUCT\n", i));
                     for j in 0..g.n {
                         if g.adj[i] >> j & 1 == 1 {
-                            s.push_str(&format!("    e{}_{} : T{};\n", i, j, j));
+                            s.push_str(&format!("    e{}_{} : {}{};\n", i, j, rt, j));
                         }
                     }
                     s.push_str("  END_STRUCT;\n");
@@ -200,7 +207,7 @@ fn order_of(n: usize, name: &str) -> Vec<usize> {
 
 fn judge(g: &Graph, real: Real, order_name: &str, family: &str) -> Res {
     let order = order_of(g.n, order_name);
-    let text = realise(g, real, &order);
+    let text = realise_spelled(g, real, &order, order_name.contains("other-case"));
     let (verdict, _) = check_texts(&[&text]);
     let cyclic = g.cyclic();
     let codes = verdict.codes();
@@ -305,7 +312,7 @@ fn families() -> Vec<(String, Graph)> {
 }
 
 pub fn run(ctx: &mut Ctx) {
-    ctx.rule = "every digraph on n nodes (bitmask over n*n possible edges, self-loops included) x 3 realisations (FB instances; all-struct types; alias for out-degree 1 else struct) x declaration order; distinct = distinct program text; all are non-trivial (each is a different reference graph)".into();
+    ctx.rule = "every digraph on n nodes (bitmask over n*n possible edges, self-loops included) x 3 realisations (FB instances; all-struct types; alias for out-degree 1 else struct) x {ascending, descending declaration order, ascending with every reference spelled in the other letter case}; distinct = distinct program text; all are non-trivial (each is a different reference graph)".into();
     ctx.assumptions.push("reference oracle: a digraph is cyclic iff iterated deletion of successor-free nodes leaves a non-empty rest (harness code, independent of petgraph)".into());
     ctx.assumptions.push("recursion is 'reported' iff the codes contain P0010 or P0013; other codes (e.g. P9999 for unsupported constructs) are ignored in the acyclic direction".into());
     let reals = [Real::Fb, Real::Struct, Real::AliasMix];
@@ -313,7 +320,7 @@ pub fn run(ctx: &mut Ctx) {
     let max_n = 4;
     for n in 0..=max_n {
         let bits = n * n;
-        let orders: &[&'static str] = &["asc", "desc"];
+        let orders: &[&'static str] = &["asc", "desc", "asc-references-in-other-case"];
         for mask in 0u64..(1u64 << bits) {
             let g = Graph::from_mask(n, mask);
             for real in reals {
